@@ -113,6 +113,16 @@ _HAS_QUANT = {}
 
 def discharge(ob, timeout_s=None, want_model=True):
     """Decide one obligation.  unsat -> proved, sat -> failed (+model), else unknown."""
+    if os.environ.get("DV_TRACE"):
+        try:
+            return _discharge(ob, timeout_s, want_model)
+        finally:
+            with open(os.environ["DV_TRACE"], "a") as f:
+                f.write("%-8s %6.1fs %s\n" % (ob.status, ob.secs or 0, ob.name[:160]))
+    return _discharge(ob, timeout_s, want_model)
+
+
+def _discharge(ob, timeout_s=None, want_model=True):
     timeout_s = timeout_s or QUICK_TIMEOUT_S
     t0 = time.time()
     if isinstance(ob.goal, bool):
@@ -257,6 +267,27 @@ def discharge(ob, timeout_s=None, want_model=True):
         ob.status = "unknown"
     ob.secs = time.time() - t0
     return ob
+
+
+def has_quantifier(f):
+    todo, seen = [f], set()
+    while todo:
+        x = todo.pop()
+        if z3.is_quantifier(x):
+            return True
+        if x.get_id() in seen:
+            continue
+        seen.add(x.get_id())
+        todo.extend(x.children())
+    return False
+
+
+def qf_part(constraints):
+    """the quantifier-free conjuncts of a list of constraints (a WEAKER set: sound for refuting, i.e. for `unsat` answers)"""
+    flat = []
+    for c in constraints:
+        flat.extend(c.children() if z3.is_and(c) else [c])
+    return [c for c in flat if not has_quantifier(c)]
 
 
 def check_sat(constraints, timeout_s=10):
